@@ -10,6 +10,7 @@ RULE = ('Hypothesis-generated coordinate-sorted in-memory fragment lists (n<=14 
         'scCHIC and plain Fragment classes; 1..3 cells; duplicates arriving after unrelated molecules; short and long '
         'fragments; 1..2 contigs). For every input ALL schedules check_eject_every in {None,0..n} x pooling_method {0,1} '
         'are run (exhaustive over schedules) and each partition is compared with the never-eject partition; every '
+        'fragment must be emitted exactly once. A quarter of the plain cases contain a bridging fragment that matches two buffered molecules (shares its start with one and its end with the other): there each pooling method is compared with its own never-eject partition; every '
         'fragment must be emitted exactly once. Part wide: spans up to cache_size-1, kept only when in_domain() holds. Non-trivial: some schedule ejected a molecule before the end of the '
         'input while a further fragment was still to come, and the input has a molecule with >=2 fragments.')
 ASSUMPTIONS = ['input sorted by fragment start; every fragment span < cache_size/4 (strict reading of "shorter than the cache radius"), or (part wide) any span < cache_size provided no fragment ends more than cache_size/2 beyond the current extent of a molecule that still has fragments to come',
@@ -69,13 +70,35 @@ def strategy(max_n, wide=False):
                     start = m['pos'] if not m['rev'] else m['pos'] - ln
                 frags.append({'mol': mi, 'tid': m['tid'], 'start': start, 'len': ln, 'rev': m['rev'], 'cell': m['cell'],
                               'umi': m['umi'], 'tie': draw(st.integers(0, 1000))})
+        ambiguous = False
+        if kind == 'plain' and mols and draw(st.integers(0, 3)) == 0:
+            # plain fragments are compared by start OR end: a second molecule of the same cell/strand/UMI that overlaps an
+            # earlier one without sharing an end with it, plus a fragment that shares its start with one and its end with
+            # the other. Which molecule the bridge joins is decided by arrival order; the never-eject run defines it.
+            a = mols[draw(st.integers(0, len(mols) - 1))]
+            d = draw(st.integers(1, max(1, a['len'] - 8)))
+            lnb = draw(st.integers(8, max(8, maxspan)))
+            if a['pos'] + d + lnb != a['pos'] + a['len'] and a['len'] - d >= 1:
+                mi = len(mols)
+                mols.append(dict(a, pos=a['pos'] + d, len=lnb, copies=1))
+                for c in range(draw(st.integers(1, 2))):
+                    frags.append({'mol': mi, 'tid': a['tid'], 'start': a['pos'] + d, 'len': lnb, 'rev': a['rev'], 'cell': a['cell'],
+                                  'umi': a['umi'], 'tie': draw(st.integers(0, 1000))})
+                for c in range(draw(st.integers(1, 2))):
+                    frags.append({'mol': a_index(mols, a), 'tid': a['tid'], 'start': a['pos'] + d, 'len': a['len'] - d, 'rev': a['rev'],
+                                  'cell': a['cell'], 'umi': a['umi'], 'tie': draw(st.integers(0, 1000))})
+                ambiguous = True
         frags = frags[:max_n]
         frags.sort(key=lambda f: (f['tid'], f['start'], f['tie']))
         for i, f in enumerate(frags):
             f['name'] = 'r%d_m%d' % (i, f['mol'])
             del f['tie']
-        return {'kind': kind, 'cache': cache, 'frags': frags}
+        return {'kind': kind, 'cache': cache, 'frags': frags, 'ambiguous': ambiguous}
     return case()
+
+
+def a_index(mols, a):
+    return [i for i, m in enumerate(mols) if m is a][0]
 
 
 def build_reads(case):
@@ -142,6 +165,75 @@ def in_domain(case):
 
 
 def eval_case(case):
+    if case.get('ambiguous'):
+        return eval_ambiguous(case)
+    return eval_clean(case)
+
+
+def eval_ambiguous(case):
+    """A fragment matches two buffered molecules (plain fragments are compared by start OR end): the first matching
+    molecule in arrival order takes it. The two pooling methods match differently by design here (against every fragment of a
+    molecule / against the molecule as a whole), so each pooling method is compared with its OWN never-eject partition,
+    and that partition also supplies the molecule labels of the precondition."""
+    out = Outcome()
+    n = len(case['frags'])
+    if n == 0:
+        return out
+    early = False
+    multi = False
+    for pooling in (0, 1):
+        try:
+            ref, _ = run_schedule(case, None, pooling)
+        except Exception as e:
+            return out.bad('exception:never-eject:%s' % type(e).__name__, repr(e))
+        label = {nm: gi for gi, g in enumerate(ref) for nm in g}
+        labelled = dict(case, frags=[dict(f, mol=label[f['name']]) for f in case['frags']])
+        if not in_domain(labelled):
+            out.label('out of domain (a pending duplicate lies beyond the ejection margin)')
+            continue
+        multi = multi or any(len(g) >= 2 for g in ref)
+        early = compare_schedules(labelled, ref, [pooling], out, ':bridged') or early
+    _dedup(out)
+    out.nontrivial = early and multi
+    out.label('kind=plain', 'fragment matching two molecules (arrival order decides)')
+    return out
+
+
+def compare_schedules(case, ref, poolings, out, suffix=''):
+    n = len(case['frags'])
+    all_names = sorted(f['name'] for f in case['frags'])
+    early = False
+    for pooling in poolings:
+        for every in [None] + list(range(0, n + 1)):
+            try:
+                part, log = run_schedule(case, every, pooling)
+            except Exception as e:
+                out.bad('exception:%s' % type(e).__name__, 'every=%r pooling=%d: %r' % (every, pooling, e))
+                continue
+            emitted = sorted(x for g in part for x in g)
+            if any(c < n for c, _ in log):
+                early = True
+            if emitted != all_names:
+                lost = sorted(set(all_names) - set(emitted))
+                dup = sorted({x for x in emitted if emitted.count(x) > 1})
+                out.bad('fragment-%s:pooling%d' % ('lost' if lost else 'duplicated', pooling),
+                        'every=%r pooling=%d lost=%r duplicated=%r' % (every, pooling, lost, dup))
+            elif part != ref:
+                split = [g for g in ref if g not in part]
+                out.bad('partition-differs:pooling%d:%s%s' % (pooling, case['kind'] if case['kind'] == 'plain' else 'hashed', suffix),
+                        'every=%r pooling=%d cache=%d: got %r, never-eject gives %r; affected %r' % (
+                            every, pooling, case['cache'], part, ref, split))
+    return early
+
+
+def _dedup(out):
+    seen = {}
+    for s, m in out.violations:
+        seen.setdefault(s, m)
+    out.violations = list(seen.items())
+
+
+def eval_clean(case):
     out = Outcome()
     n = len(case['frags'])
     if n == 0:
@@ -150,7 +242,6 @@ def eval_case(case):
         return out.label('out of domain (a pending duplicate lies beyond the ejection margin)')
     if any(f['len'] >= case['cache'] // 4 for f in case['frags']):
         out.label('wide spans in domain')
-    all_names = sorted(f['name'] for f in case['frags'])
     try:
         ref, _ = run_schedule(case, None, 1)
     except Exception as e:
@@ -169,31 +260,8 @@ def eval_case(case):
         else:
             out.bad('never-eject-differs-from-truth:%s' % case['kind'], 'reference %r truth %r' % (ref, truth))
             return out
-    early = False
-    for pooling in (0, 1):
-        for every in [None] + list(range(0, n + 1)):
-            try:
-                part, log = run_schedule(case, every, pooling)
-            except Exception as e:
-                out.bad('exception:%s' % type(e).__name__, 'every=%r pooling=%d: %r' % (every, pooling, e))
-                continue
-            emitted = sorted(x for g in part for x in g)
-            if any(c < n for c, _ in log):
-                early = True
-            if emitted != all_names:
-                lost = sorted(set(all_names) - set(emitted))
-                dup = sorted({x for x in emitted if emitted.count(x) > 1})
-                out.bad('fragment-%s:pooling%d' % ('lost' if lost else 'duplicated', pooling),
-                        'every=%r pooling=%d lost=%r duplicated=%r' % (every, pooling, lost, dup))
-            elif part != ref:
-                split = [g for g in ref if g not in part]
-                out.bad('partition-differs:pooling%d:%s' % (pooling, case['kind'] if case['kind'] == 'plain' else 'hashed'),
-                        'every=%r pooling=%d cache=%d: got %r, never-eject gives %r; affected %r' % (
-                            every, pooling, case['cache'], part, ref, split))
-    seen = {}
-    for s, m in out.violations:
-        seen.setdefault(s, m)
-    out.violations = list(seen.items())
+    early = compare_schedules(case, ref, (0, 1), out)
+    _dedup(out)
     out.nontrivial = early and multi
     out.label('kind=%s' % case['kind'], 'schedules:%d' % (2 * (n + 2)))
     if early:
